@@ -267,6 +267,7 @@ struct World {
   std::function<int(const Tx &)> beh_override;   // return -1 for default
   // stats
   std::map<std::string, int64_t> stat;
+  bool file_io_yields = false;   // Mode B: opening a virtual file is a scheduling point
   void bump(const std::string &k, int64_t n = 1) { stat[k] += n; }
 
   void reset(uint64_t seed);
